@@ -140,6 +140,9 @@ func registerTime(e *Engine) {
 		if in.env != nil && in.env.Now != nil {
 			return in.env.Now(in)
 		}
+		if t, ok := in.ghost["now"]; ok {
+			return t
+		}
 		if in.drawCursor < len(in.draws) {
 			d := in.draws[in.drawCursor]
 			in.drawCursor++
